@@ -39,7 +39,7 @@ def run(ctx: Context) -> None:
     from . import infra as _infra
     _infra.reviewed_overrides(ctx, 'R06.10')
     from .common import adopt_foundations as _adopt
-    _adopt(ctx, 'R06.9', ['order'], floor=60)
+    _adopt(ctx, 'R06.9', ['order', 'topology'], floor=60)
     ctx.assume("GEOS is_valid detects self-intersection; numpy nanmin/nanmax/nanmean/pad semantics; shapely.polygons closes rings")
     ctx.assume("NOT decided: equality of UGRID node-based bounds with the polygon union when unused nodes exist (data dependent)")
 
